@@ -711,3 +711,315 @@ RECIPES += [
     ("C03", "neutral", [], S, _VRS_DF, "    # Create delta_f for area calculation:\n    steps = np.diff(freq)\n    df = np.empty(rf)\n    df[1:-1] = (steps[1:] + steps[:-1]) / 2\n    df[0] = steps[0]\n    df[-1] = steps[-1]\n",
      "vrs: quadrature weights from np.diff(freq)"),
 ]
+
+
+# ---------------------------------------------------------------------------------------------------------------- pass 4
+# effects the evaluator must follow (out=, .fill, np.copyto, views, in-place operators on aliases), function values (lambdas in tables, nested functions,
+# functools.partial workers), tables built by comprehensions, match statements, keyword bundles, whole-array stores, vectorised vrs
+_RELACCE_B = "    b = np.array([-1.0, 2.0, -1.0])\n    if wn != 0.0:\n        b *= (E * sin(B)) / B\n"
+_ABSACCE_A = "        beta2 = E2 - Sb\n        b = np.array([beta0, beta1, beta2])\n    a = np.array([1, -2 * C, E2])\n"
+_PACCE_B = ("        f = dT * wn\n        q = (2 * zeta * zeta - 1) / sqz\n        beta0 = ((1 - C) / Q - q * S - wn * dT) / f\n"
+            "        beta1 = (2 * C * wn * dT - (1 - E2) / Q + 2 * q * S) / f\n        beta2 = (-E2 * (wn * dT + 1 / Q) + C / Q - q * S) / f\n"
+            "        b = np.array([beta0, beta1, beta2])\n")
+_PACCE_B_LOOP = _PACCE_B.replace("        b = np.array([beta0, beta1, beta2])\n",
+                                 "        b = np.empty(3)\n        for k, beta in enumerate((beta0, beta1, beta2)):\n            b[k] = beta\n")
+_IC_STEADY = '''    elif ic == "steady":
+        sig = sig - s1
+        if stype == "absacce":
+            icvals = s1
+            doic = 1
+        elif stype == "relacce" or stype == "relvelo":
+            pass
+        else:
+            # 'reldisp', 'pvelo' or 'pacce'
+            icvals = -s1
+            doic = 1
+    return sig, s1, doic, icvals
+'''
+_IC_STEADY_UFUNC = '''    elif ic == "steady":
+        sig = np.subtract(sig, s1)
+        if stype not in ("relacce", "relvelo"):
+            icvals = s1 if stype == "absacce" else np.negative(s1)
+    doic = int(icvals is not None)
+    return sig, s1, doic, icvals
+'''
+_IC_STEADY_TABLE = '''    elif ic == "steady":
+        sig = sig - s1
+        steady = {"absacce": (1, s1), "relacce": (0, None), "relvelo": (0, None)}
+        doic, icvals = steady[stype] if stype in steady else (1, -s1)
+    return sig, s1, doic, icvals
+'''
+_TAIL_DISPLAY_LOOP = '''    if eqsine:
+        for arr in (SRSmax, resp["hist"]) if getresp else (SRSmax,):
+            np.divide(arr, Q, out=arr)
+    return (SRSmax, resp) if getresp else SRSmax
+'''
+_IC_SERIAL = '''            dT = 1 / sr
+            for j in range(LF):
+                b, a = coeffunc(Q, dT, wn[j])
+                resphist = signal.lfilter(b, a, sig, axis=0)
+                if stype == "reldisp":
+                    resphist += icvals / wn[j] ** 2
+                elif stype == "pvelo":
+                    resphist += icvals / wn[j]
+                else:
+                    # stype == 'pacce' or 'absacce'
+                    resphist += icvals
+                SRSmax[j] = methfunc(resphist[S:])
+                if getresp:
+                    resp["hist"][:, :, j] = resphist[S:]
+'''
+_IC_SERIAL_CLOSURE = '''            dT = 1 / sr
+
+            def one_frequency(j):
+                b, a = coeffunc(Q, dT, wn[j])
+                resphist = signal.lfilter(b, a, sig, axis=0)
+                match stype:
+                    case "reldisp":
+                        resphist[...] += icvals / wn[j] ** 2
+                    case "pvelo":
+                        resphist[...] += icvals / wn[j]
+                    case _:
+                        resphist[...] += icvals
+                SRSmax[j] = methfunc(resphist[S:])
+                if getresp:
+                    resp["hist"][:, :, j] = resphist[S:]
+
+            for j in range(LF):
+                one_frequency(j)
+'''
+_IC_SERIAL_LAMBDAS = '''            dT = 1 / sr
+            offsets = {"reldisp": lambda w: icvals / w**2, "pvelo": lambda w: icvals / w}
+            offset = offsets.get(stype, lambda w: icvals)
+            for j, w in enumerate(wn):
+                resphist = signal.lfilter(*coeffunc(Q, dT, w), sig, 0)
+                resphist += offset(w)
+                SRSmax[j] = methfunc(resphist[S:])
+                if getresp:
+                    resp["hist"][..., j] = resphist[S:]
+'''
+_SERIAL_PASS = '''def _serial_pass(SRSmax, hist, wn, *, coeffunc, Q, dT, sig, methfunc, S, offset=None):
+    j = 0
+    while j < len(wn):
+        w = wn[j]
+        b, a = coeffunc(Q, dT, w)
+        resphist = signal.lfilter(b, a, sig, axis=0)
+        if offset is not None:
+            resphist += offset(w)
+        window = resphist[S:]
+        SRSmax[j] = methfunc(window)
+        if hist is not None:
+            hist[..., j] = window
+        j += 1
+
+
+def vrs('''
+_IC_SERIAL_BUNDLE = '''            job = dict(coeffunc=coeffunc, Q=Q, dT=1 / sr, sig=sig, methfunc=methfunc, S=S)
+            offsets = {"reldisp": lambda w: icvals / w**2, "pvelo": lambda w: icvals / w}
+            job["offset"] = offsets.get(stype, lambda w: icvals)
+            _serial_pass(SRSmax, resp["hist"] if getresp else None, wn, **job)
+'''
+_BUNDLE = _multi((_IC_SERIAL, _IC_SERIAL_BUNDLE), ("def vrs(", _SERIAL_PASS))
+_BUNDLE_BAD = (_BUNDLE[0], _BUNDLE[1].replace('"pvelo": lambda w: icvals / w}', '"pvelo": lambda w: icvals / w**2}'))
+_BUNDLE_BAD_WINDOW = (_BUNDLE[0], _BUNDLE[1].replace("            hist[..., j] = window\n", "            hist[..., j] = resphist\n"))
+_WORKER_ADDBACK = '''    if stype == "reldisp":
+        resphist += ICVALS_ / WN_[j] ** 2
+    elif stype == "pvelo":
+        resphist += ICVALS_ / WN_[j]
+    else:
+        # stype == 'pacce' or 'absacce'
+        resphist += ICVALS_
+    SRSmax_[j] = methfunc(resphist[S:])
+    HIST_[:, :, j] = resphist[S:]
+'''
+_WORKER_DIVISOR = '''    divisor = _IC_DIVISOR.get(stype)
+    resphist += ICVALS_ if divisor is None else ICVALS_ / divisor(WN_[j])
+    SRSmax_[j] = methfunc(resphist[S:])
+    HIST_[:, :, j] = resphist[S:]
+'''
+_DIVISOR_TABLE = '_IC_DIVISOR = {"reldisp": lambda w: w**2, "pvelo": lambda w: w}\n\n\ndef _process_inputs('
+_WORKER_TABLE = _multi((_WORKER_ADDBACK, _WORKER_DIVISOR), ("def _process_inputs(", _DIVISOR_TABLE))
+_WORKER_TABLE_BAD = (_WORKER_TABLE[0], _WORKER_TABLE[1].replace('"pvelo": lambda w: w}', '"pvelo": lambda w: w**2}'))
+_WORKER_MATCH = '''    match stype:
+        case "reldisp":
+            resphist[:] = resphist + ICVALS_ / WN_[j] ** 2
+        case "pvelo":
+            resphist[:] = resphist + ICVALS_ / WN_[j]
+        case "pacce" | "absacce":
+            resphist[:] = resphist + ICVALS_
+        case _:
+            raise ValueError("no steady-state value for this response type")
+    SRSmax_[j] = methfunc(resphist[S:])
+    HIST_[:, :, j] = resphist[S:]
+'''
+_PAR_WORKER = '''def _par_worker(args, with_ic=False, with_hist=False):
+    j, common = args
+    coeffunc, Q, dT, methfunc, S = common[:5]
+    b, a = coeffunc(Q, dT, WN_[j])
+    resphist = signal.lfilter(b, a, SIG_, axis=0)
+    if with_ic:
+        stype = common[5]
+        if stype == "reldisp":
+            resphist += ICVALS_ / WN_[j] ** 2
+        elif stype == "pvelo":
+            resphist += ICVALS_ / WN_[j]
+        else:
+            resphist += ICVALS_
+    SRSmax_[j] = methfunc(resphist[S:])
+    if with_hist:
+        HIST_[:, :, j] = resphist[S:]
+
+
+def _process_inputs('''
+_PARTIAL = _multi(("import itertools as it\n", "import itertools as it\nfrom functools import partial\n"), ("def _process_inputs(", _PAR_WORKER),
+                  ("            func = _dosrs_ic if getresp else _dosrs_nohist_ic\n", "            func = partial(_par_worker, with_ic=True, with_hist=getresp)\n"),
+                  ("            func = _dosrs if getresp else _dosrs_nohist\n", "            func = partial(_par_worker, with_hist=getresp)\n"))
+_PARTIAL_NO_IC = (_PARTIAL[0], _PARTIAL[1].replace("partial(_par_worker, with_ic=True, with_hist=getresp)", "partial(_par_worker, with_hist=getresp)"))
+_TIME_CODES = _multi(('    ptr = {"primary": 0, "total": 1, "residual": 2}\n', '    codes = {name: code for code, name in enumerate(("primary", "total", "residual"))}\n'),
+                     ("    ptr = ptr[time]\n", "    ptr = codes[time]\n"))
+_TIME_CODES_BAD = (_TIME_CODES[0], _TIME_CODES[1].replace('enumerate(("primary", "total", "residual"))', 'enumerate(("primary", "total", "residual"), 1)'))
+_TIME_INDEX = _multi(('    ptr = {"primary": 0, "total": 1, "residual": 2}\n', ""), ("    ptr = ptr[time]\n", '    ptr = ("primary", "total", "residual").index(time)\n'))
+_TIME_INDEX_BAD = (_TIME_INDEX[0], _TIME_INDEX[1].replace('("primary", "total", "residual").index(time)', '("primary", "residual", "total").index(time)'))
+_COEF_NAMES = _multi(('''    coefs = {
+        "absacce": absacce,
+        "relacce": relacce,
+        "reldisp": reldisp,
+        "relvelo": relvelo,
+        "pvelo": pvelo,
+        "pacce": pacce,
+    }
+''', "    coefs = {func.__name__: func for func in (absacce, relacce, reldisp, relvelo, pvelo, pacce)}\n"))
+_VRS_LOOPS = '''    if getresp:
+        psd_vrs = np.empty((len(Fn), npsds, len(freq)))
+        for i, fn in enumerate(Fn):
+            p = freq / fn
+            p2z2 = (2 * zeta * p) ** 2
+            t = ((1 + p2z2) / ((1 - p**2) ** 2 + p2z2)) * psdfull.T
+            psd_vrs[i] = t  # npsds x len(freq)
+            z_vrs[i] = np.sqrt(np.sum(df * t, axis=1))
+'''
+_VRS_LOOPS_VIEWS = '''    if getresp:
+        psd_vrs = np.empty((len(Fn), npsds, len(freq)))
+        for z_row, psd_slab, fn in zip(z_vrs, psd_vrs, Fn):
+            p = freq / fn
+            p2z2 = np.square(2 * zeta * p)
+            t = ((1 + p2z2) / (np.square(1 - np.square(p)) + p2z2)) * psdfull.T
+            psd_slab[...] = t
+            np.sqrt((df * t).sum(axis=1), out=z_row)
+'''
+_VRS_ALL = '''    # Compute VRS at each frequency
+    z_vrs = np.empty((len(Fn), npsds))
+    zeta = 1 / 2 / Q
+''' + _VRS_LOOPS + '''        resp = {}
+        resp["f"] = freq
+        resp["psd"] = psd_vrs
+        if PSD.ndim == 1:
+            z_vrs = z_vrs.ravel()
+        return z_vrs, z_miles, resp
+
+    for i, fn in enumerate(Fn):
+        p = freq / fn
+        p2z2 = (2 * zeta * p) ** 2
+        t = ((1 + p2z2) / ((1 - p**2) ** 2 + p2z2) * df) * psdfull.T
+        z_vrs[i] = np.sqrt(np.sum(t, axis=1))
+
+    if PSD.ndim == 1:
+        z_vrs = z_vrs.ravel()
+    if getmiles:
+        return z_vrs, z_miles
+    return z_vrs
+'''
+_VRS_VECTORISED = '''    # all oscillators at once; `p` is len(Fn) x len(freq)
+    zeta = 1 / 2 / Q
+    p = freq / Fn[:, None]
+    p2z2 = (2 * zeta * p) ** 2
+    trans = (1 + p2z2) / ((1 - p**2) ** 2 + p2z2)
+    if getresp:
+        psd_vrs = trans[:, None, :] * psdfull.T
+        z_vrs = np.sqrt(np.sum(df * psd_vrs, axis=2))
+    else:
+        z_vrs = np.sqrt(np.sum((trans * df)[:, None, :] * psdfull.T, axis=2))
+    if PSD.ndim == 1:
+        z_vrs = z_vrs.ravel()
+    result = (z_vrs,)
+    if getresp or getmiles:
+        result += (z_miles,)
+    if getresp:
+        result += (dict(f=freq, psd=psd_vrs),)
+    return result if len(result) > 1 else z_vrs
+'''
+_FRF_EFFECTS = _multi(("            a[:] = 0.0\n", "            a.fill(0.0)\n"), ("            a += fs\n", "            np.add(a, fs, out=a)\n"),
+                      ("                frfs[:, j, :] = a.T\n", "                np.copyto(frfs[:, j, :], a.T)\n"))
+_FRF_EFFECTS_DROPPED = (_FRF_EFFECTS[0], _FRF_EFFECTS[1].replace("np.add(a, fs, out=a)", "np.add(a, fs)"))
+_FRF_EFFECTS_SIGN = (_FRF_EFFECTS[0], _FRF_EFFECTS[1].replace("np.add(a, fs, out=a)", "np.subtract(a, fs, out=a)"))
+_FRF_EFFECTS_ABS = (_FRF_EFFECTS[0], _FRF_EFFECTS[1].replace("np.copyto(frfs[:, j, :], a.T)", "np.copyto(frfs[:, j, :], abs(a.T))"))
+_FRF_RETURN_LIST = '''    out = [shk]
+    if return_srs_frq:
+        out.append(srs_frq)
+    if getresp:
+        out.append({"freq": ffreq, "frfs": frfs, "srs_frq": srs_frq})
+    if len(out) == 1:
+        return shk
+    return tuple(out)
+'''
+_FRF_TAIL_ALL = _FRF_TAIL
+
+RECIPES += [
+    ("C03", "neutral", [], S, _RELACCE_B, "    b = np.array((-1.0, 2.0, -1.0))\n    if wn != 0.0:\n        np.multiply(b, (E * sin(B)) / B, out=b)\n", "relacce: scaled through np.multiply(..., out=b)"),
+    ("C03", "break", ["C03-R1"], S, _RELACCE_B, "    b = np.array((-1.0, 2.0, -1.0))\n    if wn != 0.0:\n        np.multiply(b, (E * cos(B)) / B, out=b)\n", "relacce: out= scaling with the cosine"),
+    ("C03", "break", ["C03-R1"], S, _RELACCE_B, "    b = np.array((-1.0, 2.0, -1.0))\n    if wn != 0.0:\n        np.multiply(b, (E * sin(B)) / B)\n", "relacce: the scaled array is discarded (no out=)"),
+    ("C03", "neutral", [], S, _RELACCE_B, "    scale = (E * sin(B)) / B if wn != 0.0 else 1.0\n    b = np.array([c * scale for c in (-1.0, 2.0, -1.0)])\n", "relacce: numerator by a comprehension over a display"),
+    ("C03", "break", ["C03-R1"], S, _RELACCE_B, "    scale = (E * sin(B)) / B if wn != 0.0 else 1.0\n    b = np.array([c * scale for c in (-1.0, 2.0, 1.0)])\n", "relacce: comprehension over a wrong display"),
+    ("C03", "neutral", [], S, _ABSACCE_A, "        beta2 = E2 - Sb\n        b = np.array([beta0, beta1, beta2])\n    a = np.empty(3)\n    a[0] = 1\n    a[1:] = (-2 * C, E2)\n", "absacce: denominator filled by an element store and a slice store"),
+    ("C03", "break", ["C03-R1"], S, _ABSACCE_A, "        beta2 = E2 - Sb\n        b = np.array([beta0, beta1, beta2])\n    a = np.empty(3)\n    a[0] = 1\n    a[1:] = (E2, -2 * C)\n", "absacce: slice store in the wrong order"),
+    ("C03", "neutral", [], S, _ABSACCE_A, "        beta2 = E2 - Sb\n        b = np.hstack((beta0, beta1, beta2))\n    a = np.r_[1.0, -2 * C, E2]\n", "absacce: np.hstack / np.r_ of the scalar coefficients"),
+    ("C03", "neutral", [], S, _PACCE_B, _PACCE_B_LOOP, "pacce: numerator stored element by element in a loop over a display"),
+    ("C03", "break", ["C03-R1"], S, _PACCE_B, _PACCE_B_LOOP.replace("b[k] = beta", "b[2 - k] = beta"), "pacce: loop stores in reverse order"),
+    ("C03", "neutral", [], S, _IC_STEADY, _IC_STEADY_UFUNC, "_process_ic: np.subtract / np.negative, doic from `icvals is not None`"),
+    ("C03", "break", ["C03-R3"], S, _IC_STEADY, _IC_STEADY_UFUNC.replace('s1 if stype == "absacce" else np.negative(s1)', 'np.negative(s1) if stype == "absacce" else s1'), "_process_ic: ufunc form with the signs exchanged"),
+    ("C03", "neutral", [], S, _IC_STEADY, _IC_STEADY_TABLE, "_process_ic: (doic, icvals) from a table of displays, `in` on the table"),
+    ("C03", "break", ["C03-R3"], S, _IC_STEADY, _IC_STEADY_TABLE.replace('"relacce": (0, None)', '"relacce": (1, s1)'), "_process_ic: table restores an offset for relacce"),
+    ("C03", "neutral", [], S, "    S = M if ptr == 2 else 0\n", "    S = (0, 0, M)[ptr]\n", "srs: S from a display indexed by ptr"),
+    ("C03", "break", ["C03-R4"], S, "    S = M if ptr == 2 else 0\n", "    S = (0, M, M)[ptr]\n", "srs: S display wrong for time='total'"),
+    ("C03", "neutral", [], S, "    S = M if ptr == 2 else 0\n", "    S = M * (ptr == 2)\n", "srs: S by arithmetic on the truth value"),
+    ("C03", "break", ["C03-R4"], S, "    S = M if ptr == 2 else 0\n", "    S = M * (ptr != 0)\n", "srs: S by arithmetic on the wrong truth value"),
+    ("C03", "neutral", [], S, _TAIL, _TAIL_DISPLAY_LOOP, "srs: eqsine through np.divide(arr, Q, out=arr) in a loop over a display of the two arrays"),
+    ("C03", "break", ["C03-R7"], S, _TAIL, _TAIL_DISPLAY_LOOP.replace('(SRSmax, resp["hist"]) if getresp else (SRSmax,)', "(SRSmax,)"), "srs: display loop forgets the history"),
+    ("C03", "break", ["C03-R7"], S, _TAIL, _TAIL_DISPLAY_LOOP.replace("np.divide(arr, Q, out=arr)", "np.divide(arr, Q)"), "srs: eqsine division without out= (result discarded)"),
+    ("C03", "break", ["C03-R7"], S, _TAIL, _TAIL_DISPLAY_LOOP.replace("np.divide(arr, Q, out=arr)", "np.multiply(arr, Q, out=arr)"), "srs: eqsine multiplies in place"),
+    ("C03", "neutral", [], S, _IC_SERIAL, _IC_SERIAL_CLOSURE, "srs: serial add-back loop as a nested function with match / whole-array in-place updates"),
+    ("C03", "break", ["C03-R3"], S, _IC_SERIAL, _IC_SERIAL_CLOSURE.replace('resphist[...] += icvals / wn[j]\n', 'resphist[...] += icvals / wn[j] ** 2\n'), "srs: nested function, pvelo case divides by wn^2"),
+    ("C03", "break", ["C03-R4"], S, _IC_SERIAL, _IC_SERIAL_CLOSURE.replace('resp["hist"][:, :, j] = resphist[S:]', 'resp["hist"][:, :, j] = resphist[M:]'), "srs: nested function stores another window"),
+    ("C03", "neutral", [], S, _IC_SERIAL, _IC_SERIAL_LAMBDAS, "srs: add-back from a table of lambdas closing over icvals; lfilter(*coeffunc(...), sig, 0)"),
+    ("C03", "break", ["C03-R3"], S, _IC_SERIAL, _IC_SERIAL_LAMBDAS.replace('"reldisp": lambda w: icvals / w**2', '"reldisp": lambda w: icvals / w'), "srs: lambda table, reldisp divides by wn"),
+    ("C03", "neutral", [], S) + _BUNDLE + ("srs: serial pass in a helper called with a keyword bundle (**job) and an offset lambda; counted while loop",),
+    ("C03", "break", ["C03-R3"], S) + _BUNDLE_BAD + ("srs: keyword bundle, pvelo offset divides by wn^2",),
+    ("C03", "break", ["C03-R4"], S) + _BUNDLE_BAD_WINDOW + ("srs: keyword-bundle helper stores the whole response",),
+    ("C03", "neutral", [], S) + _WORKER_TABLE + ("_dosrs_ic: add-back divisor from a module-level table of lambdas",),
+    ("C03", "break", ["C03-R3"], S) + _WORKER_TABLE_BAD + ("_dosrs_ic: table of lambdas, pvelo divides by wn^2",),
+    ("C03", "neutral", [], S, _WORKER_ADDBACK, _WORKER_MATCH, "_dosrs_ic: match statement with whole-array stores"),
+    ("C03", "break", ["C03-R3"], S, _WORKER_ADDBACK, _WORKER_MATCH.replace("resphist + ICVALS_ / WN_[j]\n", "resphist - ICVALS_ / WN_[j]\n"), "_dosrs_ic: match statement, pvelo subtracts"),
+    ("C03", "neutral", [], S) + _PARTIAL + ("srs: one worker specialised with functools.partial",),
+    ("C03", "break", ["C03-R3"], S) + _PARTIAL_NO_IC + ("srs: partial worker without the add-back flag",),
+    ("C03", "neutral", [], S) + _TIME_CODES + ("_process_inputs: time codes by a dict comprehension over enumerate",),
+    ("C03", "break", ["C03-R4"], S) + _TIME_CODES_BAD + ("_process_inputs: enumerate starts at 1",),
+    ("C03", "neutral", [], S) + _TIME_INDEX + ("_process_inputs: time code by display.index",),
+    ("C03", "break", ["C03-R4"], S) + _TIME_INDEX_BAD + ("_process_inputs: display.index over a permuted display",),
+    ("C03", "neutral", [], S) + _COEF_NAMES + ("_process_inputs: coefficient table keyed by func.__name__",),
+    ("C03", "neutral", [], S, _VRS_LOOPS, _VRS_LOOPS_VIEWS, "vrs: loop over row / slab views, results written through out= and [...]"),
+    ("C03", "break", ["C03-R6"], S, _VRS_LOOPS, _VRS_LOOPS_VIEWS.replace("np.sqrt((df * t).sum(axis=1), out=z_row)", "np.sqrt((2 * df * t).sum(axis=1), out=z_row)"), "vrs: view loop integrates with doubled weights"),
+    ("C03", "break", ["C03-R6"], S, _VRS_LOOPS, _VRS_LOOPS_VIEWS.replace("psd_slab[...] = t", "psd_slab[...] = t * df"), "vrs: view loop stores the weighted response PSD"),
+    ("C03", "neutral", [], S, _VRS_ALL, _VRS_VECTORISED, "vrs: all oscillators at once by broadcasting"),
+    ("C03", "break", ["C03-R6"], S, _VRS_ALL, _VRS_VECTORISED.replace("((1 - p**2) ** 2 + p2z2)", "((1 - p**2) ** 2 - p2z2)"), "vrs: broadcast form with a wrong transmissibility"),
+    ("C03", "break", ["C03-R6"], S, _VRS_ALL, _VRS_VECTORISED.replace("(trans * df)[:, None, :]", "(trans * df * df)[:, None, :]"), "vrs: broadcast form with squared weights"),
+    ("C03", "neutral", [], S) + _FRF_EFFECTS + ("srs_frf: a.fill / np.add(out=) / np.copyto into a slab",),
+    ("C03", "break", ["C03-R9"], S) + _FRF_EFFECTS_DROPPED + ("srs_frf: np.add without out= (relative response kept)",),
+    ("C03", "break", ["C03-R9"], S) + _FRF_EFFECTS_SIGN + ("srs_frf: np.subtract(out=) instead of add",),
+    ("C03", "break", ["C03-R9"], S) + _FRF_EFFECTS_ABS + ("srs_frf: np.copyto stores magnitudes in resp['frfs']",),
+    ("C03", "neutral", [], S, _FRF_TAIL_ALL, _FRF_RETURN_LIST, "srs_frf: result assembled in a list with append"),
+    ("C03", "break", ["C03-R9"], S, _FRF_TAIL_ALL, _FRF_RETURN_LIST.replace("    if return_srs_frq:\n        out.append(srs_frq)\n", "").replace("    if len(out) == 1:", "    if return_srs_frq:\n        out.append(srs_frq)\n    if len(out) == 1:"), "srs_frf: list assembled in the wrong order"),
+    ("C03", "neutral", [], S, "def _rmsmeth(resp):\n    return np.sqrt((resp**2).mean(axis=0))\n", "def _rmsmeth(resp):\n    nsteps = resp.shape[0]\n    return np.sqrt(np.sum(np.square(resp), axis=0) / nsteps)\n", "_rmsmeth: sum of np.square over the number of rows"),
+    ("C03", "break", ["C03-R8"], S, "def _rmsmeth(resp):\n    return np.sqrt((resp**2).mean(axis=0))\n", "def _rmsmeth(resp):\n    nsteps = resp.shape[1]\n    return np.sqrt(np.sum(np.square(resp), axis=0) / nsteps)\n", "_rmsmeth: divided by the number of signals"),
+    ("C03", "neutral", [], S, "def _absmeth(resp):\n    return abs(resp).max(axis=0)\n", "def _absmeth(resp):\n    return np.fabs(resp).max(0)\n", "_absmeth: np.fabs, positional axis"),
+    ("C03", "break", ["C03-R8"], S, "def _absmeth(resp):\n    return abs(resp).max(axis=0)\n", "def _absmeth(resp):\n    return np.fabs(resp).max(1)\n", "_absmeth: peak over the signals"),
+]
